@@ -92,7 +92,8 @@ impl Machine for SizeMachine<'_> {
         let used: usize = hist.iter().map(|p| p.len).sum::<usize>() / self.fe.gran;
         let mut v = vec![];
         for &s in &self.sizes {
-            if used + s > self.nmax {
+            // an empty multi-block call is legal; two in a row add nothing new
+            if used + s > self.nmax || (s == 0 && hist.last().map(|p| p.len == 0).unwrap_or(false)) {
                 continue;
             }
             for kind in [Kind::InPlace, Kind::B2b] {
@@ -204,8 +205,7 @@ pub fn run(ctx: &Ctx) -> Outcome {
                     }
                     rep.count("deviation_schedules", 2 * cuts_sets.len() as u64);
                     // (3) merged BFS over call sizes
-                    let mut sizes = vec![1, 2, par.saturating_sub(1), par, par + 1, 2 * par, 2 * par + 1, 3 * par + 1, 8, 9, 16, 17];
-                    sizes.retain(|s| *s >= 1);
+                    let mut sizes = vec![0, 1, 2, par.saturating_sub(1), par, par + 1, 2 * par, 2 * par + 1, 3 * par + 1, 8, 9, 16, 17];
                     sizes.sort();
                     sizes.dedup();
                     let m = SizeMachine { fe: &fe, key, iv: &iv, data: &data[..nbfs * g], pre: &pre, want: &want, sizes, nmax: nbfs };
